@@ -634,4 +634,23 @@ def r7_dask_grid_labels(ctx):
     product_grid_labels(ctx)
 
 
-RULES = [r7_dask_grid_labels, r1_enabled_filter, r2_run_space, r3_column_cursor, r4_entry_wiring, r5_names_and_zips, r6_validation_first]
+def r8_parameters_applied_in_given_order(ctx):
+    """A run's parameters are applied to the processor copy in the order they were declared (setters of coupled settings, e.g. the APD gain / bias pair, depend on it): create_new_processor and Processor.replace iterate the given mapping itself, not a sorted / reversed / set view of it."""
+    for q, pname in ((f"{M}:create_new_processor", None), ("pyxel.pipelines.processor:Processor.replace", None)):
+        f = ctx.func(q)
+        sets = [c for c in calls_in(f.node) if isinstance(c.func, ast.Attribute) and c.func.attr == "set"]
+        lps = [enclosing_loop(c) for c in sets]
+        ok = bool(sets) and all(isinstance(l, ast.For) for l in lps)
+        why = "parameters are not applied in a loop over the given mapping"
+        if ok:
+            lp = lps[0]
+            it = expand(f, lp.iter)
+            br = order_breakers(it)
+            core, _ = strip_order_preserving(it)
+            src = dotted(core.func.value) if isinstance(core, ast.Call) and isinstance(core.func, ast.Attribute) and core.func.attr in ("items", "keys") else dotted(core)
+            ok = not br and src in f.params
+            why = f"applies the given parameters in their own order ({norm(it)[:40]})" if ok else f"parameters are applied in the order of `{norm(it)[:50]}`: not the declaration order of the run's parameters"
+        ctx.check(ok, f.qual + "#order", why, where=f, node=lps[0].iter if lps and lps[0] is not None else f.node)
+
+
+RULES = [r8_parameters_applied_in_given_order, r7_dask_grid_labels, r1_enabled_filter, r2_run_space, r3_column_cursor, r4_entry_wiring, r5_names_and_zips, r6_validation_first]
